@@ -23,5 +23,7 @@ mod c03;
 mod c04;
 #[path = "lib/c05.rs"]
 mod c05;
+// lib/c07.rs (MethodCall::send slot protocol) is kept for the record but not mounted: out of memory
+// after 530 s (DESIGN.md section 5, C07)
 #[path = "lib/c17.rs"]
 mod c17;
